@@ -1,4 +1,5 @@
 """Family "trees": C28 remote digests (RemoteTree.tla), C29 CAS filesystem view (RemoteTreeFS.tla), C34 copy/link (FileOps.tla)."""
+import hashlib
 import json
 import os
 import random
@@ -148,7 +149,7 @@ CLAIM28 = dict(
 
 @register("C28", claim=CLAIM28)
 def run_c28(ctx):
-    ctx.rule = ("every sequence (all orders, with repetition) of <=N input declarations over 7 nested paths x kinds enumerated by TLC "
+    ctx.rule = ("every sequence (all orders, with repetition) of <=N input declarations over 6 (quick) or 7-11 (thorough) nested paths x kinds enumerated by TLC "
                 "(RemoteTree.tla, one state per sequence) with the spec's canonical root; each replayed into the real dirBuilder, a "
                 "seeded sample also through the real uploadInputDir/buildAction; non-trivial = conflict-free with >=2 declarations; "
                 "distinct by the declaration sequence")
@@ -156,97 +157,111 @@ def run_c28(ctx):
                        "only the canonical form is required there",
                        "the action digest may depend on the declared order of srcs (it is visible to the command as $SRCS)",
                        "SHA-256 is collision-free on the explored messages"]
+    rnd = random.Random(ctx.seed)
+    groups = {"builder": {}, "action": {}}      # level -> layout key -> {"roots": {root digest: first case}, "n": orders}
+    actgroups = {}                              # (layout, source order) -> {"digests": {action digest: first case}, "n": orders}
+    counts = dict(action=0, cases=0)
+    legend_box = {}
+
+    def lkey(c):
+        return hashlib.md5(json.dumps(c["expect"], sort_keys=True).encode()).hexdigest()
+
+    def process(cases, budget):
+        """One batch: choose the action-level sample, replay, judge, fold into the cross-order groups."""
+        if budget is not None:
+            # action level: whole permutation classes (all declaration orders of one layout) up to a budget
+            bylayout = {}
+            for c in cases:
+                if c["cf"] and len(c["ins"]) >= 2:
+                    bylayout.setdefault(lkey(c), []).append(c)
+            keys = sorted(bylayout)
+            rnd.shuffle(keys)
+            pick = set()
+            for k in keys:
+                if len(pick) >= budget:
+                    break
+                pick.update(map(id, bylayout[k]))
+            for c in cases:
+                c["action"] = id(c) in pick
+        for i, c in enumerate(cases):
+            c["id"] = i
+        obs = run_vh_parallel(ctx, "remotetree", [dict(id=c["id"], ins=c["ins"], action=c["action"]) for c in cases],
+                              procs=4 if ctx.quick else 8)
+        legend = obs.get("legend")
+        if legend is None:
+            raise vlib.Infra("no legend from vh remotetree")
+        legend_box.update(legend)
+        for c in cases:
+            o = obs.pop(c["id"], None)
+            if o is None:
+                raise vlib.Infra("no observation for case %d" % c["id"])
+            counts["cases"] += 1
+            ctx.count(hashlib.md5(json.dumps(c["ins"], sort_keys=True).encode()).hexdigest(), nontrivial=c["cf"] and len(c["ins"]) >= 2,
+                      sample=dict(case=c, observed=o) if c["cf"] and len(c["ins"]) >= 3 and c.get("action") and len(ctx.samples) < 5 else None)
+            for level in ("builder", "action"):
+                lo = o.get(level)
+                if lo is None:
+                    continue
+                if "infra" in lo:
+                    raise vlib.Infra("harness trouble in case %d: %s" % (c["id"], lo["infra"]))
+                if level == "action":
+                    counts["action"] += 1
+                if "error" in lo or "conflict" in lo:
+                    if c["cf"]:
+                        ctx.violation("C28 %s error-on-valid-inputs" % level, dict(case=c, observed=lo))
+                    continue
+                out = []
+                if c["cf"]:
+                    rt_check(c["expect"], lo["dirs"], legend, ".", out)
+                    if lo["root"] != lo["dirs"]["."]["digest"]:
+                        out.append(("wrong-tree", "returned root is not the root message"))
+                    g = groups[level].setdefault(lkey(c), {"roots": {}, "n": 0})
+                    g["n"] += 1
+                    g["roots"].setdefault(lo["root"], c)
+                else:
+                    rt_form(lo["dirs"], ".", out)
+                for cls in sorted({x[0] for x in out}):
+                    ctx.violation("C28 %s %s%s" % (level, cls, "" if c["cf"] else " (conflicting declarations)"),
+                                  dict(case=c, observed=lo, why=[x[1] for x in out if x[0] == cls][:4]))
+                if level == "action" and c["cf"]:
+                    if "action_error" in lo:
+                        ctx.violation("C28 action buildAction-error", dict(case=c, observed=lo))
+                        continue
+                    if not lo["env_sorted"] or len(set(lo["env_names"])) != len(lo["env_names"]):
+                        ctx.violation("C28 action command-env-not-sorted", dict(case=c, observed=lo["env_names"]))
+                    if lo["outputs"] != sorted(lo["outputs"]):
+                        ctx.violation("C28 action command-outputs-not-sorted", dict(case=c, observed=lo["outputs"]))
+                    a = actgroups.setdefault((lkey(c), json.dumps(lo["srcs"])), {"digests": {}, "n": 0})
+                    a["n"] += 1
+                    a["digests"].setdefault(lo["action"], c)
+
     if ctx.replay_only is not None:
         cases = replay_cases(ctx)
         for c in cases:
             c["action"] = bool(c.get("cf"))
+        process(cases, None)
     else:
-        cases, notes = [], []
+        notes = []
         if ctx.quick:
             # one TLC run: invariants of the algorithm model + case generation + the conflict note
             r = vlib.tlc(ctx, "RemoteTree", "GEN_RemoteTree_3.cfg", workers=8, timeout=600)
-            cases, notes = r.cases, r.notes
+            notes = r.notes
+            process(r.cases, 3000)
         else:
             vlib.tlc(ctx, "RemoteTree", "MC_RemoteTree.cfg", workers=8)
             r = vlib.tlc(ctx, "RemoteTree", "MC_RemoteTree_conflict.cfg", workers=2, allow_violation=True)
             notes = [r.invariant] if r.invariant else []
-            for cfg in ("GEN_RemoteTree_4.cfg", "GEN_RemoteTree_3wide.cfg"):
-                cases += vlib.tlc(ctx, "RemoteTree", cfg, workers=8, timeout=3000).cases
+            for cfg in ("GEN_RemoteTree_4.cfg", "GEN_RemoteTree_3wide.cfg"):   # one batch at a time (memory)
+                r = vlib.tlc(ctx, "RemoteTree", cfg, workers=8, timeout=3000)
+                process(r.cases, 20000)
+                del r
         # design-level fact (not a verdict): on conflicting declarations the model's result is order-dependent
         ctx.extra["design_fact_conflicting_declarations_order_dependent"] = len(notes) > 0
         ctx.exhaustive = True
-        rnd = random.Random(ctx.seed)
-        budget = 3000 if ctx.quick else 40000
-        # action level: whole permutation classes (all declaration orders of one layout) up to a budget
-        bylayout = {}
-        for c in cases:
-            if c["cf"] and len(c["ins"]) >= 2:
-                bylayout.setdefault(json.dumps(c["expect"], sort_keys=True), []).append(c)
-        keys = sorted(bylayout)
-        rnd.shuffle(keys)
-        pick = set()
-        for k in keys:
-            if len(pick) >= budget:
-                break
-            pick.update(map(id, bylayout[k]))
-        for c in cases:
-            c["action"] = id(c) in pick
-    for i, c in enumerate(cases):
-        c["id"] = i
-    obs = run_vh_parallel(ctx, "remotetree", [dict(id=c["id"], ins=c["ins"], action=c["action"]) for c in cases],
-                          procs=4 if ctx.quick else 8)
-    legend = obs.get("legend")
-    if legend is None:
-        raise vlib.Infra("no legend from vh remotetree")
-    groups = {"builder": {}, "action": {}}
-    actgroups = {}
-    n_action = 0
-    for c in cases:
-        o = obs.get(c["id"])
-        if o is None:
-            raise vlib.Infra("no observation for case %d" % c["id"])
-        key = json.dumps(c["ins"], sort_keys=True)
-        ctx.count(key, nontrivial=c["cf"] and len(c["ins"]) >= 2,
-                  sample=dict(case=c, observed=o) if c["cf"] and len(c["ins"]) >= 3 and c.get("action") else None)
-        for level in ("builder", "action"):
-            lo = o.get(level)
-            if lo is None:
-                continue
-            if "infra" in lo:
-                raise vlib.Infra("harness trouble in case %d: %s" % (c["id"], lo["infra"]))
-            if level == "action":
-                n_action += 1
-            if "error" in lo or "conflict" in lo:
-                if c["cf"]:
-                    ctx.violation("C28 %s error-on-valid-inputs" % level, dict(case=c, observed=lo))
-                continue
-            out = []
-            if c["cf"]:
-                rt_check(c["expect"], lo["dirs"], legend, ".", out)
-                if lo["root"] != lo["dirs"]["."]["digest"]:
-                    out.append(("wrong-tree", "returned root is not the root message"))
-                groups[level].setdefault(json.dumps(c["expect"], sort_keys=True), []).append((lo["root"], c))
-            else:
-                rt_form(lo["dirs"], ".", out)
-            for cls in sorted({x[0] for x in out}):
-                ctx.violation("C28 %s %s%s" % (level, cls, "" if c["cf"] else " (conflicting declarations)"),
-                              dict(case=c, observed=lo, why=[x[1] for x in out if x[0] == cls][:4]))
-            if level == "action" and c["cf"]:
-                if "action_error" in lo:
-                    ctx.violation("C28 action buildAction-error", dict(case=c, observed=lo))
-                    continue
-                if not lo["env_sorted"] or len(set(lo["env_names"])) != len(lo["env_names"]):
-                    ctx.violation("C28 action command-env-not-sorted", dict(case=c, observed=lo["env_names"]))
-                if lo["outputs"] != sorted(lo["outputs"]):
-                    ctx.violation("C28 action command-outputs-not-sorted", dict(case=c, observed=lo["outputs"]))
-                ak = (json.dumps(c["expect"], sort_keys=True), json.dumps(lo["srcs"]))
-                actgroups.setdefault(ak, []).append((lo["action"], c))
     for level in ("builder", "action"):
         byroot = {}
-        for k, members in groups[level].items():
-            roots = {}
-            for root, c in members:
-                roots.setdefault(root, c)
+        for k, g in groups[level].items():
+            roots = g["roots"]
             if len(roots) > 1:
                 cs = list(roots.values())
                 ctx.violation("C28 %s root-digest-depends-on-declaration-order" % level,
@@ -256,19 +271,16 @@ def run_c28(ctx):
                     ctx.violation("C28 %s different-layouts-same-root-digest" % level, dict(case=c, other=byroot[root][1]))
                 byroot[root] = (k, c)
         ctx.extra["%s_layouts" % level] = len(groups[level])
-        ctx.extra["%s_orders_compared" % level] = sum(len(m) for m in groups[level].values())
+        ctx.extra["%s_orders_compared" % level] = sum(g["n"] for g in groups[level].values())
     multi = 0
-    for k, members in actgroups.items():
-        ds = {}
-        for a, c in members:
-            ds.setdefault(a, c)
-        multi += len(members) > 1
-        if len(ds) > 1:
-            cs = list(ds.values())
+    for k, a in actgroups.items():
+        multi += a["n"] > 1
+        if len(a["digests"]) > 1:
+            cs = list(a["digests"].values())
             ctx.violation("C28 action action-digest-depends-on-dependency-declaration-order", dict(case=cs[0], other=cs[1]))
-    ctx.extra["action_level_cases"] = n_action
+    ctx.extra["action_level_cases"] = counts["action"]
     ctx.extra["action_digest_groups_with_several_orders"] = multi
-    ctx.traces_validated = len(cases) + n_action
+    ctx.traces_validated = counts["cases"] + counts["action"]
 
 
 # ============================================================================================== C29
@@ -591,7 +603,7 @@ CLAIM34 = dict(
          "target strings) with failure allowed only for hard-linking without fallback when linking is impossible, source unchanged; "
          "algorithm level RecursiveCopyOrLinkFile / CopyOrLinkFile of src/fs/copy.go (Lstat of the root, parents-first walk, mkdir / "
          "re-create symlink / link-or-copy, non-directory roots handed straight to CopyOrLinkFile which in copy mode opens the path). TLC "
-         "enumerates every tree of <=3 (quick) / <=4 (thorough) entries (files, nested and empty directories, relative symlinks to a file, "
+         "enumerates every tree of <=3 (quick) / <=5 (thorough) entries (files, nested and empty directories, relative symlinks to a file, "
          "to a directory, dangling, `..`) plus file and symlink roots (to a file, to a directory, dangling), checks the model against "
          "Faithful in five modes (copy; link; link without fallback; both again with os.Link failing) with the one recorded flaw carried as "
          "a named constant, and prints every tree. Each is materialised and copied by the real fs.RecursiveCopy, fs.RecursiveLink and "
@@ -616,7 +628,7 @@ def run_c34(ctx):
     if ctx.replay_only is not None:
         cases = replay_cases(ctx)
     else:
-        cfg = "GEN_FileOps_3.cfg" if ctx.quick else "GEN_FileOps_4.cfg"
+        cfg = "GEN_FileOps_3.cfg" if ctx.quick else "GEN_FileOps_5.cfg"
         cases = vlib.tlc(ctx, "FileOps", cfg, workers=8, timeout=3000).cases
         if not ctx.quick:
             r = vlib.tlc(ctx, "FileOps", "MC_FileOps_known.cfg", workers=2, allow_violation=True)
